@@ -44,6 +44,11 @@ def real_run(job):
             p = CsvPath()
             tp = TestPrinter()
             p.add_printer(tp)
+            lp = None
+            if job.get("log_printer"):      # a printer the caller attached that is a subclass of StdOutPrinter
+                from csvpath.util.printer import LogPrinter
+                lp = LogPrinter(p.logger)
+                p.add_printer(lp)
             if job.get("policy") is not None:
                 p.config.csvpath_errors_policy = list(job["policy"])
             p.parse(job["text"])
@@ -102,6 +107,7 @@ def real_run(job):
             "will_run": bool(p.will_run), "stdout": getattr(cap, "text", None), "metadata": {k: v for k, v in (p.metadata or {}).items()},
             "headers": list(p.headers or []), "records_read": nread[0],
             "pln": p.line_monitor.physical_line_number, "dlc": p.line_monitor.data_line_count,
+            "printers": [type(x).__name__ for x in (p.printers or [])], "log_printer_lines": None if lp is None else lp.lines_printed,
         })
     except Exception as ex:  # parse errors etc.
         obs["exc"] = "SETUP " + type(ex).__name__ + ": " + str(ex)[:80]
